@@ -392,6 +392,9 @@ pub fn gen_u2(c: &mut Chooser, rule_counts: &[usize], player_counts: &[usize]) -
                 UStr::plain("mutator"),
                 UStr::plain("GamePassword"),
                 UStr::plain("AdminName"),
+                // rule names padded with blanks (some servers do): still their own keys
+                UStr::plain("AdminName "),
+                UStr::plain(" ServerMode"),
                 UStr {
                     chars: "Ключ".chars().collect(),
                     ucs2: true,
